@@ -17,7 +17,7 @@ int_t in_xsup[M+1], in_xsup_end[M+1], in_supno[M], in_lsub[LC], in_xlsub[M], in_
 int_t in_alloc_fails, in_memerr, in_dyn;
 /* ghosts: pre-state copies and call records */
 int_t g_marker0[M], g_lsub0[LC], g_xlsub0[M], g_xlsub_end0[M], g_xprune0[M], g_xsup0[M+1], g_xsup_end0[M+1], g_supno0[M], g_repfnz0[M], g_segrep0[M], g_perm0[M], g_col0[M];
-int_t g_nsuper0, g_nextl0, g_nseg0, g_ret, g_alloc_num, g_alloc_prev;
+int_t g_nsuper0, g_nextl0, g_nseg0, g_ret, g_alloc_num, g_alloc_prev, g_p, g_q, g_r, g_c, g_lo[M], g_hi[M];
 int g_alloc_calls, g_newsup_calls, g_argbad;
 void verif_abort(char *);
 
@@ -54,7 +54,7 @@ static int_t scan_hi(int_t k) {
 }
 
 void h_column_dfs(void) {
-  int_t c, p, q, r, k, s, fs, cnt, joined, nested, jm1, len0, lo, hi;
+  int_t c, p, q, r, k, s, fs, cnt, joined, nested, jm1, len0, lo, hi, xj, xe;
   /* ---------- inputs: no contract is enforced in a bounded unit, so make them nondeterministic here ---------- */
   in_pnum = nondet_int_t(); in_jcol = nondet_int_t(); in_fstcol = nondet_int_t(); in_lsub_end = nondet_int_t(); in_nseg = nondet_int_t();
   in_alloc_fails = nondet_int_t(); in_memerr = nondet_int_t(); in_dyn = nondet_int_t();
@@ -85,7 +85,7 @@ void h_column_dfs(void) {
   __CPROVER_assume(0 <= in_Glu.nsuper && in_Glu.nsuper <= M - 2);
   __CPROVER_assume(0 <= in_Glu.nextl && in_Glu.nextl <= LC);
   /* column jcol of A below the panel start, as gathered by the panel dfs: distinct rows */
-  __CPROVER_assume(0 <= in_lsub_end && in_lsub_end <= M);
+  __CPROVER_assume(0 <= in_lsub_end && in_lsub_end <= ACOL);     /* ACOL <= M: bound of the variant on the entries of A(:,jcol) */
   for (c = 0; c < M; c++) if (c < in_lsub_end) {
     __CPROVER_assume(0 <= in_col_lsub[c] && in_col_lsub[c] < M);
     for (q = 0; q < c; q++) __CPROVER_assume(in_col_lsub[q] != in_col_lsub[c]);
@@ -118,7 +118,7 @@ void h_column_dfs(void) {
   /* the dfs of this column runs over the finished columns of the panel: what it scans at a representative k holds rows that were
    * unpivoted when k was finished, i.e. now unpivoted or pivoted at a column >= k; scanned ranges are short (bound of this unit) */
   for (k = 0; k < M; k++) if (in_fstcol <= k && k < in_jcol && in_xsup_end[in_supno[k]] - 1 == k) {
-    lo = scan_lo(k); hi = scan_hi(k);
+    lo = scan_lo(k); hi = scan_hi(k); g_lo[k] = lo; g_hi[k] = hi;
     __CPROVER_assume(hi - lo <= M - k);        /* at most n-k rows were unpivoted when column k was finished */
     for (p = 0; p < LC; p++) if (lo <= p && p < hi) __CPROVER_assume(in_perm_r[in_lsub[p]] == EMPTY || in_perm_r[in_lsub[p]] >= k);
   }
@@ -136,23 +136,23 @@ void h_column_dfs(void) {
   g_ret = p@p@gstrf_column_dfs(in_pnum, M, in_jcol, in_fstcol, in_perm_r, in_ispruned, in_col_lsub, in_lsub_end, in_super_bnd, &in_nseg, in_segrep,
                                in_repfnz, in_xprune, in_marker2, in_parent, in_xplore, &in_sh);
 
-  /* ---------- results ---------- */
+  /* ---------- results (pointwise: g_p, g_q positions of lsub, g_r a row, g_c a column / list slot, all arbitrary) ---------- */
+  g_p = nondet_int_t(); g_q = nondet_int_t(); g_r = nondet_int_t(); g_c = nondet_int_t();
+  __CPROVER_assume(0 <= g_p && g_p < LC && 0 <= g_q && g_q < LC && 0 <= g_r && g_r < M && 0 <= g_c && g_c < M);
   __CPROVER_assert(g_argbad == 0, "callees get the documented arguments");
   __CPROVER_assert(g_ret == 0 || (in_alloc_fails && g_ret == in_memerr && g_alloc_calls == 1), "return value: 0, or the allocator's error code");
-  for (r = 0; r < M; r++) __CPROVER_assert(in_perm_r[r] == g_perm0[r], "perm_r is not modified");
+  __CPROVER_assert(in_perm_r[g_r] == g_perm0[g_r], "perm_r is not modified");
   /* segments: appended behind the panel's, representatives are finished panel columns, first nonzero inside the representative's supernode */
   __CPROVER_assert(g_nseg0 <= in_nseg && in_nseg <= g_nseg0 + (in_jcol - in_fstcol) && in_nseg <= M, "nseg in range");
-  for (q = 0; q < M; q++) {
-    if (q < g_nseg0) __CPROVER_assert(in_segrep[q] == g_segrep0[q], "panel segments kept");
-    if (g_nseg0 <= q && q < in_nseg) {
-      k = in_segrep[q];
-      __CPROVER_assert(in_fstcol <= k && k < in_jcol && g_xsup_end0[g_supno0[k]] - 1 == k, "new segment representative: last column of a finished supernode of the panel");
-      __CPROVER_assert(g_repfnz0[k] == EMPTY && g_xsup0[g_supno0[k]] <= in_repfnz[k] && in_repfnz[k] <= k, "new segment: first nonzero lies in the representative's supernode");
-      for (p = 0; p < M; p++) if (g_nseg0 <= p && p < q) __CPROVER_assert(in_segrep[p] != k, "new segments distinct");
-    }
+  if (g_c < g_nseg0) __CPROVER_assert(in_segrep[g_c] == g_segrep0[g_c], "panel segments kept");
+  if (g_nseg0 <= g_c && g_c < in_nseg) {
+    k = in_segrep[g_c];
+    __CPROVER_assert(in_fstcol <= k && k < in_jcol && g_xsup_end0[g_supno0[k]] - 1 == k, "new segment representative: last column of a finished supernode of the panel");
+    __CPROVER_assert(g_repfnz0[k] == EMPTY && g_xsup0[g_supno0[k]] <= in_repfnz[k] && in_repfnz[k] <= k, "new segment: first nonzero lies in the representative's supernode");
+    if (g_nseg0 <= g_r && g_r < g_c) __CPROVER_assert(in_segrep[g_r] != k, "new segments distinct");
   }
-  for (r = 0; r < M; r++) __CPROVER_assert(in_repfnz[r] == EMPTY || (0 <= in_repfnz[r] && in_repfnz[r] < M), "repfnz entries EMPTY or a column");
-  for (r = 0; r < M; r++) __CPROVER_assert(in_marker2[r] == g_marker0[r] || in_marker2[r] == in_jcol, "marker2: kept or set to jcol");
+  __CPROVER_assert(in_repfnz[g_r] == EMPTY || (0 <= in_repfnz[g_r] && in_repfnz[g_r] < M), "repfnz entries EMPTY or a column");
+  __CPROVER_assert(in_marker2[g_r] == g_marker0[g_r] || in_marker2[g_r] == in_jcol, "marker2: kept or set to jcol");
 
   if (g_ret == 0) {
     joined = (in_supno[in_jcol] != g_nsuper0 + 1);
@@ -161,22 +161,21 @@ void h_column_dfs(void) {
     __CPROVER_assert(in_xsup_end[in_supno[in_jcol]] == in_jcol + 1, "jcol is the last column of its supernode");
     __CPROVER_assert(in_super_bnd[in_jcol] == 0 || (!joined && in_xsup[g_nsuper0 + 1] == in_jcol && in_Glu.nsuper == g_nsuper0 + 1),
                      "super_bnd[jcol] != 0 ==> jcol starts a new supernode (static and dynamic storage scheme)");
-    cnt = in_xlsub_end[in_jcol] - in_xlsub[in_jcol];
-    __CPROVER_assert(0 <= in_xlsub[in_jcol] && 0 <= cnt && cnt <= M && in_xlsub_end[in_jcol] <= in_Glu.nextl && in_Glu.nextl <= LC, "row list of jcol inside the used part of lsub");
-    nested = 1;
-    for (p = 0; p < LC; p++) if (in_xlsub[in_jcol] <= p && p < in_xlsub_end[in_jcol]) {
-      r = in_lsub[p];
+    xj = in_xlsub[in_jcol]; xe = in_xlsub_end[in_jcol]; cnt = xe - xj;
+    __CPROVER_assert(0 <= xj && 0 <= cnt && cnt <= M && xe <= in_Glu.nextl && in_Glu.nextl <= LC, "row list of jcol inside the used part of lsub");
+    if (xj <= g_p && g_p < xe) {
+      r = in_lsub[g_p];
       __CPROVER_assert(0 <= r && r < M, "stored row index < n");
       __CPROVER_assert(in_perm_r[r] == EMPTY, "stored rows are unpivoted (L part)");
-      __CPROVER_assert(in_marker2[r] == in_jcol, "stored rows are marked");
-      for (q = 0; q < LC; q++) if (in_xlsub[in_jcol] <= q && q < p) __CPROVER_assert(in_lsub[q] != r, "stored rows distinct");
-      if (g_marker0[r] != jm1) nested = 0;
+      __CPROVER_assert(in_marker2[r] == in_jcol && g_marker0[r] != in_jcol, "stored rows are marked now and were not before");
+      if (xj <= g_q && g_q < g_p) __CPROVER_assert(in_lsub[g_q] != r, "stored rows distinct");
     }
-    for (c = 0; c < M; c++) if (c < in_lsub_end && in_perm_r[g_col0[c]] == EMPTY) {
-      k = 0;
-      for (p = 0; p < LC; p++) if (in_xlsub[in_jcol] <= p && p < in_xlsub_end[in_jcol] && in_lsub[p] == g_col0[c]) k = 1;
-      __CPROVER_assert(k, "every unpivoted row of A(:,jcol) is stored");
+    nested = 1; k = 0;
+    for (p = 0; p < LC; p++) if (xj <= p && p < xe) {
+      if (g_marker0[in_lsub[p]] != jm1) nested = 0;
+      if (in_lsub[p] == g_col0[g_c]) k = 1;
     }
+    if (g_c < in_lsub_end && in_perm_r[g_col0[g_c]] == EMPTY) __CPROVER_assert(k, "every unpivoted row of A(:,jcol) is stored");
     s = g_supno0[jm1]; fs = g_xsup0[s];
     if (joined) {
       __CPROVER_assert(in_super_bnd[in_jcol] == 0, "joined ==> not a boundary of the H partition");
@@ -184,39 +183,39 @@ void h_column_dfs(void) {
       __CPROVER_assert(nested && cnt == len0 - 1, "joined ==> rows of jcol nest in those of jcol-1 and only the pivot row is lost (T2)");
       __CPROVER_assert(g_newsup_calls == 0 && g_alloc_calls == 0 && in_Glu.nsuper == g_nsuper0 && in_Glu.nextl == g_nextl0, "joined ==> no supernode number and no storage taken");
       __CPROVER_assert(in_xsup[s] == fs, "joined ==> first column of the supernode kept");
-      __CPROVER_assert(in_xlsub[in_jcol] == g_xlsub_end0[fs] && in_xprune[fs] == g_xlsub_end0[fs] && in_xprune[in_jcol] == in_xlsub_end[in_jcol], "joined ==> jcol's rows sit in the copy area of the first column; prune bounds as documented");
-      __CPROVER_assert(in_xlsub_end[in_jcol] - in_xlsub[in_jcol] == g_xlsub_end0[fs] - g_xlsub0[fs] - (in_jcol - fs), "joined ==> T2 shape re-established for jcol");
-      for (p = 0; p < LC; p++) if (p < in_xlsub[in_jcol] || p >= in_xlsub_end[in_jcol]) __CPROVER_assert(in_lsub[p] == g_lsub0[p], "joined ==> lsub changed only in jcol's list");
-      __CPROVER_assert(in_xlsub_end[in_jcol] <= g_xlsub_end0[fs] + (g_xlsub_end0[fs] - g_xlsub0[fs]), "joined ==> jcol's list inside the copy area");
+      __CPROVER_assert(xj == g_xlsub_end0[fs] && in_xprune[fs] == g_xlsub_end0[fs] && in_xprune[in_jcol] == xe, "joined ==> jcol's rows sit in the copy area of the first column; prune bounds as documented");
+      __CPROVER_assert(cnt == g_xlsub_end0[fs] - g_xlsub0[fs] - (in_jcol - fs), "joined ==> T2 shape re-established for jcol");
+      if (g_p < xj || g_p >= xe) __CPROVER_assert(in_lsub[g_p] == g_lsub0[g_p], "joined ==> lsub changed only in jcol's list");
+      __CPROVER_assert(xe <= g_xlsub_end0[fs] + (g_xlsub_end0[fs] - g_xlsub0[fs]), "joined ==> jcol's list inside the copy area");
     } else {
       __CPROVER_assert(in_super_bnd[in_jcol] != 0 || in_jcol - fs >= MAXSUPER || !nested || cnt != len0 - 1, "new supernode ==> one of the four reasons holds");
       __CPROVER_assert(g_newsup_calls == 1 && in_Glu.nsuper == g_nsuper0 + 1 && in_xsup[g_nsuper0 + 1] == in_jcol, "new supernode: number nsuper+1 taken once, xsup set");
-      __CPROVER_assert(g_alloc_calls == 1 && g_alloc_num == 2 * cnt && g_alloc_prev == g_nextl0 && in_xlsub[in_jcol] == g_nextl0 && in_Glu.nextl == g_nextl0 + 2 * cnt, "new supernode: exactly 2*|rows| subscripts allocated, list at the old nextl");
-      __CPROVER_assert(in_xprune[in_jcol] == in_xlsub_end[in_jcol] + cnt, "new supernode: prune bound behind the copy");
-      for (p = 0; p < LC; p++) if (in_xlsub[in_jcol] <= p && p < in_xlsub_end[in_jcol]) __CPROVER_assert(in_lsub[p + cnt] == in_lsub[p], "new supernode: copy of the list kept behind it");
-      for (p = 0; p < LC; p++) if (p < g_nextl0) __CPROVER_assert(in_lsub[p] == g_lsub0[p], "new supernode: earlier lists untouched");
-      for (c = 0; c < M; c++) if (c < in_jcol) __CPROVER_assert(in_xprune[c] == g_xprune0[c], "new supernode: prune bounds of earlier columns kept");
+      __CPROVER_assert(g_alloc_calls == 1 && g_alloc_num == 2 * cnt && g_alloc_prev == g_nextl0 && xj == g_nextl0 && in_Glu.nextl == g_nextl0 + 2 * cnt, "new supernode: exactly 2*|rows| subscripts allocated, list at the old nextl");
+      __CPROVER_assert(in_xprune[in_jcol] == xe + cnt, "new supernode: prune bound behind the copy");
+      if (xj <= g_p && g_p < xe) __CPROVER_assert(g_p + cnt < LC && in_lsub[g_p + cnt] == in_lsub[g_p], "new supernode: copy of the list kept behind it");
+      if (g_p < g_nextl0) __CPROVER_assert(in_lsub[g_p] == g_lsub0[g_p], "new supernode: earlier lists untouched");
+      if (g_c < in_jcol) __CPROVER_assert(in_xprune[g_c] == g_xprune0[g_c], "new supernode: prune bounds of earlier columns kept");
     }
     /* frame of the maps */
-    for (c = 0; c < M; c++) if (c < in_jcol) {
-      __CPROVER_assert(in_supno[c] == g_supno0[c] && in_xlsub[c] == g_xlsub0[c] && in_xlsub_end[c] == g_xlsub_end0[c], "maps of earlier columns kept");
-      if (c != fs) __CPROVER_assert(in_xprune[c] == g_xprune0[c], "prune bounds of other columns kept");
+    if (g_c < in_jcol) {
+      __CPROVER_assert(in_supno[g_c] == g_supno0[g_c] && in_xlsub[g_c] == g_xlsub0[g_c] && in_xlsub_end[g_c] == g_xlsub_end0[g_c], "maps of earlier columns kept");
+      if (g_c != fs) __CPROVER_assert(in_xprune[g_c] == g_xprune0[g_c], "prune bounds of other columns kept");
     }
-    for (c = 0; c <= M; c++) if (c <= g_nsuper0) {
-      __CPROVER_assert(in_xsup[c] == g_xsup0[c], "xsup of existing supernodes kept");
-      if (!(joined && c == s)) __CPROVER_assert(in_xsup_end[c] == g_xsup_end0[c], "xsup_end of other supernodes kept");
+    if (g_c <= g_nsuper0) {
+      __CPROVER_assert(in_xsup[g_c] == g_xsup0[g_c], "xsup of existing supernodes kept");
+      if (!(joined && g_c == s)) __CPROVER_assert(in_xsup_end[g_c] == g_xsup_end0[g_c], "xsup_end of other supernodes kept");
     }
-    /* closure of the symbolic step: whatever the dfs newly visited is fully scanned */
-    for (k = 0; k < M; k++) if (in_fstcol <= k && k < in_jcol && g_xsup_end0[g_supno0[k]] - 1 == k && g_repfnz0[k] == EMPTY && in_repfnz[k] != EMPTY) {
-      lo = scan_lo(k); hi = scan_hi(k);
-      if (!(joined && k == fs))       /* xprune[fs] was just moved */
-      for (p = 0; p < LC; p++) if (lo <= p && p < hi) __CPROVER_assert(in_marker2[g_lsub0[p]] == in_jcol, "rows below a visited representative are reached");
-    }
-    for (c = 0; c < M; c++) if (c < in_lsub_end) {
-      r = g_col0[c];
+#if DEPTH > 0
+    /* closure of the symbolic step: whatever the dfs newly visited is fully scanned (scan range in the pre-state) */
+    k = g_c;
+    if (in_fstcol <= k && k < in_jcol && g_xsup_end0[g_supno0[k]] - 1 == k && g_repfnz0[k] == EMPTY && in_repfnz[k] != EMPTY && g_lo[k] <= g_p && g_p < g_hi[k])
+      __CPROVER_assert(in_marker2[g_lsub0[g_p]] == in_jcol, "rows below a visited representative are reached");
+    r = g_col0[g_c];
+    if (g_c < in_lsub_end) {
       __CPROVER_assert(in_marker2[r] == in_jcol, "rows of A(:,jcol) are reached");
-      if (g_marker0[r] != in_jcol && in_perm_r[r] >= in_fstcol) { k = g_xsup_end0[g_supno0[in_perm_r[r]]] - 1; __CPROVER_assert(in_repfnz[k] != EMPTY && in_repfnz[k] <= in_perm_r[r], "U row inside the panel: its supernode is visited, first nonzero at or above it"); }
+      if (in_perm_r[r] >= in_fstcol) { k = g_xsup_end0[g_supno0[in_perm_r[r]]] - 1; __CPROVER_assert(in_repfnz[k] != EMPTY && in_repfnz[k] <= in_perm_r[r], "U row inside the panel: its supernode is visited, first nonzero at or above it"); }
     }
+#endif
   }
   /* ---------- canaries ---------- */
   __CPROVER_assert(0, "canary: column_dfs returns");
@@ -232,6 +231,10 @@ void h_column_dfs(void) {
   if (g_ret == 0 && !joined && cnt == 3 && in_lsub_end == 1) __CPROVER_assert(0, "canary: rows appended by the dfs");
 #else
   if (g_ret == 0 && in_nseg == g_nseg0 + 2 && in_parent[in_segrep[g_nseg0]] == in_segrep[g_nseg0 + 1]) __CPROVER_assert(0, "canary: dfs of depth two");
+#if ACOL >= 2
   if (g_ret == 0 && joined && in_nseg == g_nseg0 + 2 && in_parent[in_segrep[g_nseg0]] == EMPTY) __CPROVER_assert(0, "canary: two dfs roots, jcol joins");
+#else
+  if (g_ret == 0 && joined && in_nseg == g_nseg0 + 2) __CPROVER_assert(0, "canary: jcol joins after a dfs over two supernodes");
+#endif
 #endif
 }
